@@ -97,6 +97,42 @@ pub fn emit(tier: &str, seed: u64, path: &str) -> Report {
                 r.violation(format!("C08 seal-failed {}", p.name()), format!("{}: the library failed to produce a token: {}", p.name(), out.brief()), json!({"cmd": "C08", "note": "seal failure", "p": p.name()}));
             }
         }
+        // ONE key object sealing a whole series (applications keep their key objects): every token of the series must be the
+        // specification's, not only the first
+        for ki in 0..pools.count(p).min(2) {
+            let key = pools.key(p, ki);
+            let n = match (p, thorough) {
+                (P::V1P, false) => 4,
+                (P::V3P, false) => 8,
+                (_, false) => 24,
+                (P::V1P | P::V3P, true) => 60,
+                (_, true) => 600,
+            };
+            let mut steps = Vec::new();
+            for k in 0..n {
+                let nonce = if p == P::V2L && k % 2 == 1 { rng.bytes(24) } else { rng.bytes(32) };
+                let len = [0usize, 1, 15, 16, 17, 31, 32, 33, 64, 100, 255, 256, 1000][k % 13];
+                let msg = if k % 2 == 0 { gens::ascii_of_len(len, k as u8) } else { gens::utf8_of_len(len, &mut rng) };
+                let footer = opt_cat(&mut rng, k);
+                let ia = if p.has_assertion() { opt_cat(&mut rng, k / 6 + k) } else { None };
+                steps.push(KStep::Seal { nonce, msg, footer, ia });
+            }
+            let outs = core_key_session(p, &key, &steps);
+            for (st, out) in steps.iter().zip(outs.into_iter()) {
+                if let KStep::Seal { nonce, msg, footer, ia } = st {
+                    r.evaluations += 1;
+                    id += 1;
+                    let rec = json!({"id": id, "layer": "core", "p": p.name(), "key": key, "nonce": util::hex(nonce), "msg": msg, "footer": footer, "ia": ia,
+                        "token": out.clone().ok(), "error": match &out { Out::Ok(_) => None, o => Some(o.brief()) }});
+                    line(&mut f, rec);
+                    if out.is_ok() {
+                        r.count(&format!("{} core tokens emitted from ONE key object", p.name()));
+                    } else {
+                        r.violation(format!("C08 seal-failed {}", p.name()), format!("{}: the library failed to produce a token from a key object used before: {}", p.name(), out.brief()), json!({"cmd": "C08", "note": "seal failure", "p": p.name()}));
+                    }
+                }
+            }
+        }
         // builder-produced tokens (random internal nonce): the reference must be able to open them; footer presence rule
         let nb = match (p, thorough) {
             (P::V1P | P::V3P, false) => 12,
@@ -152,6 +188,8 @@ pub fn consume(inp: &str, outp: &str) -> Report {
     let mut r = Report::new();
     let fin = std::io::BufReader::new(std::fs::File::open(inp).expect("open ref log"));
     let mut f = std::io::BufWriter::new(std::fs::File::create(outp).expect("create outcome log"));
+    let mut recs: Vec<(Value, P, KeyMat, String, Option<String>, Option<String>, Out<String>)> = Vec::new();
+    let mut groups: std::collections::BTreeMap<(String, String), Vec<usize>> = std::collections::BTreeMap::new();
     for l in fin.lines() {
         let l = match l {
             Ok(l) if !l.trim().is_empty() => l,
@@ -181,7 +219,36 @@ pub fn consume(inp: &str, outp: &str) -> Report {
         let (out, _) = core_open(p, &key, token, footer, ia);
         r.evaluations += 1;
         r.count(&format!("{} reference tokens opened by the library [{}]", p.name(), out.class()));
-        let rec = json!({"id": v["id"], "ok": out.ok(), "error": match &out { Out::Ok(_) => None, o => Some(o.brief()) }});
+        groups.entry((p.name().to_string(), v["key"].to_string())).or_default().push(recs.len());
+        recs.push((v["id"].clone(), p, key, token.to_string(), footer.map(|s| s.to_string()), ia.map(|s| s.to_string()), out));
+    }
+    // every token once more through ONE key object per (protocol, key): applications keep their key objects, and state that a
+    // key object accumulates (a cached derivation, a remembered salt) shows from the second token on
+    for ((pname, _), idxs) in &groups {
+        if idxs.len() < 2 {
+            continue;
+        }
+        for chunk in idxs.chunks(64) {
+            let (p, key) = (recs[chunk[0]].1, recs[chunk[0]].2.clone());
+            let steps: Vec<KStep> = chunk.iter().map(|&i| KStep::Open { token: Some(recs[i].3.clone()), footer: recs[i].4.clone(), ia: recs[i].5.clone() }).collect();
+            let outs = core_key_session(p, &key, &steps);
+            for (&i, o) in chunk.iter().zip(outs.into_iter()) {
+                r.evaluations += 1;
+                r.count(&format!("{} reference tokens opened through a shared key object [{}]", pname, o.class()));
+                if o.clone().ok() != recs[i].6.clone().ok() {
+                    // the two ways of opening disagree: the outcome that is not the plain success is reported
+                    if recs[i].6.is_ok() {
+                        recs[i].6 = match o {
+                            Out::Ok(s) => Out::Ok(s),
+                            other => Out::Err(format!("through a key object that opened other tokens before: {}", other.brief())),
+                        };
+                    }
+                }
+            }
+        }
+    }
+    for (id, _, _, _, _, _, out) in &recs {
+        let rec = json!({"id": id, "ok": out.clone().ok(), "error": match out { Out::Ok(_) => None, o => Some(o.brief()) }});
         let _ = writeln!(f, "{}", rec);
     }
     let _ = f.flush();
